@@ -12,6 +12,53 @@ fn mvs(v: &Value) -> Vec<MV> {
 
 fn main() {
     let args: Vec<String> = std::env::args().collect();
+    if args.len() >= 4 && args[1] == "ledger" {
+        // C15: Ledger.tla histories on a real directory
+        std::panic::set_hook(Box::new(|_| {}));
+        let input = std::fs::File::open(&args[2]).expect("records");
+        let mut out = BufWriter::new(std::fs::File::create(&args[3]).expect("out"));
+        let base = std::env::temp_dir().join(format!("verif_c15_{}", std::process::id()));
+        for (idx, line) in std::io::BufReader::new(input).lines().enumerate() {
+            let line = line.unwrap();
+            if !line.contains("\"kind\":\"ledger\"") {
+                continue;
+            }
+            let rec: Value = serde_json::from_str(&line).expect("json");
+            let dir = base.join(format!("h{}", idx));
+            let _ = std::fs::remove_dir_all(&dir);
+            std::fs::create_dir_all(&dir).unwrap();
+            let mut fails = vec![];
+            let runs = rec["runs"].as_array().unwrap();
+            for (n, rev) in runs.iter().enumerate() {
+                let rev = rev.as_str().unwrap();
+                let want = rec["results"][n].as_str().unwrap();
+                let r = catch_unwind(AssertUnwindSafe(|| genabi::ledger_verify(rev, dir.to_str().unwrap())));
+                let got = match &r {
+                    Ok(Ok(())) => "ok".to_string(),
+                    Ok(Err(e)) => format!("err: {}", e),
+                    Err(_) => "panic".to_string(),
+                };
+                let class = if got.starts_with("err") { "err" } else { got.as_str() };
+                if class != want {
+                    let check = if want == "ok" { if n > 0 && runs[n - 1] == runs[n] { "c15.second_run" } else { "c15.compatible_rejected" } } else { "c15.breaking_accepted" };
+                    fails.push(json!({"check": check, "detail": format!("run #{} over revision {}: real {} spec {}", n, rev, got.chars().take(200).collect::<String>(), want)}));
+                    break;
+                }
+            }
+            if fails.is_empty() {
+                let mut files: Vec<String> = std::fs::read_dir(&dir).unwrap().map(|e| e.unwrap().file_name().to_string_lossy().to_string()).collect();
+                files.sort();
+                let mut want: Vec<String> = rec["files"].as_array().unwrap().iter().map(|v| format!("savefile_Led_{}.schema", v)).collect();
+                want.sort();
+                if files != want {
+                    fails.push(json!({"check": "c15.files", "detail": format!("directory holds {:?}, spec {:?}", files, want)}));
+                }
+            }
+            writeln!(out, "{}", json!({"kind": "result", "i": idx, "fails": fails})).unwrap();
+        }
+        let _ = std::fs::remove_dir_all(&base);
+        return;
+    }
     if args.len() < 4 || args[1] != "replay" {
         eprintln!("usage: abi replay <records> <out>");
         std::process::exit(2);
